@@ -210,26 +210,27 @@ Record state := mkS {
   fund2 : list frow }.
 Definition init : state := mkS [] [] mzero [] [] [].
 
-Fixpoint find1 (id : N) (l : list c1) : option c1 :=
-  match l with
-  | [] => None
-  | c :: t => if id1 c =? id then Some c else find1 id t
-  end.
-Fixpoint repl1 (c' : c1) (l : list c1) : list c1 :=
-  match l with
-  | [] => []
-  | c :: t => if id1 c =? id1 c' then c' :: t else c :: repl1 c' t
-  end.
-Fixpoint find2 (id : N) (l : list c2) : option c2 :=
-  match l with
-  | [] => None
-  | c :: t => if id2 c =? id then Some c else find2 id t
-  end.
-Fixpoint repl2 (c' : c2) (l : list c2) : list c2 :=
-  match l with
-  | [] => []
-  | c :: t => if id2 c =? id2 c' then c' :: t else c :: repl2 c' t
-  end.
+(* rows are looked up by contract_id; UPDATE ... WHERE id=? rewrites that row in place *)
+Section Keyed.
+  Variable R : Type.
+  Variable key : R -> N.
+  Fixpoint findk (id : N) (l : list R) : option R :=
+    match l with
+    | [] => None
+    | c :: t => if key c =? id then Some c else findk id t
+    end.
+  Fixpoint replk (c' : R) (l : list R) : list R :=
+    match l with
+    | [] => []
+    | c :: t => if key c =? key c' then c' :: t else c :: replk c' t
+    end.
+End Keyed.
+Arguments findk {R} key id l.
+Arguments replk {R} key c' l.
+Definition find1 := findk id1.
+Definition repl1 := replk id1.
+Definition find2 := findk id2.
+Definition repl2 := replk id2.
 
 (* A row transition returns the new row and the metric calls it issues, in order.
    [with1]: SELECT the row by contract_id (sql.ErrNoRows => error), UPDATE it, apply the metric calls. *)
@@ -592,6 +593,29 @@ Definition distribute2 (a : N) (u : usage) (s : state) : rs state :=
   dor r <- foldM (dstep2 a) (filter (is_source a) (fund2 s)) (s, u) ;
   ROk (fst r).
 
+(** * recalc.go — recalcContractMetrics, the maintainers' definition of the intended values.
+   v1: rows with status active/successful; v2: active / successful / renewed (the v2 query does
+   not read registry columns).  The per-status counters are not touched by it. *)
+Definition recalc_row (active earned : bool) (lk : N) (u : usage) (acc : N * usage * usage)
+  : N * usage * usage :=
+  let '(tl, tp, te) := acc in
+  if active then (tl + lk, uadd tp u, te)
+  else if earned then (tl, tp, uadd te u)
+  else acc.
+Definition recalc_v1 (acc : N * usage * usage) (c : c1) :=
+  recalc_row (st1_eqb (s1 c) Active) (st1_eqb (s1 c) Successful) (locked1 c) (use1 c) acc.
+Definition v2usage (u : usage) : usage := mkU (uRpc u) (uSto u) (uIng u) (uEgr u) 0 0 (uFund u) (uRisk u).
+Definition recalc_v2 (acc : N * usage * usage) (c : c2) :=
+  recalc_row (st2_eqb (s2 c) A2) (st2_eqb (s2 c) S2 || st2_eqb (s2 c) N2) (locked2 c) (v2usage (use2 c)) acc.
+Definition recalc_totals (l1 : list c1) (l2 : list c2) : N * usage * usage :=
+  fold_left recalc_v2 l2 (fold_left recalc_v1 l1 (0, uzero, uzero)).
+Definition recalc (s : state) : metrics :=
+  let '(tl, tp, te) := recalc_totals (cs1 s) (cs2 s) in
+  let m := mets s in
+  mkM (nAct m) (nRej m) (nSucc m) (nFail m) (nRen m) tl (uRisk tp)
+      (uRpc tp) (uSto tp) (uIng tp) (uEgr tp) (uRR tp) (uRW tp)
+      (uRpc te) (uSto te) (uIng te) (uEgr te) (uRR te) (uRW te).
+
 (** * Operations of the store that the harness drives *)
 Inductive op :=
 | AddV1 (id ng lk r : N) (u : usage)                         (* AddContract *)
@@ -605,7 +629,8 @@ Inductive op :=
 | Fund2 (id : N) (deps : list (N * N)) (r : N) (u : usage)   (* RHP4CreditAccounts *)
 | Debit2 (a : N) (u : usage)                                 (* RHP4DebitAccount *)
 | Chain (revs : list (idx * changes)) (apps : list (idx * changes * option N))
-| Reset.
+| Reset                                                      (* ResetChainState *)
+| Recalc.                                                    (* recalcContractMetrics *)
 
 Definition utotal1 (u : usage) : N := uRpc u + uSto u + uEgr u + uIng u + uRR u + uRW u.
 Definition ucost2 (u : usage) : N := uRpc u + uSto u + uEgr u + uIng u + uFund u.
@@ -651,6 +676,7 @@ Definition exec (o : op) (s : state) : rs state :=
       end
   | Chain revs apps => chain_update revs apps s
   | Reset => ROk (reset_chain s)
+  | Recalc => ROk (mkS (cs1 s) (cs2 s) (recalc s) (accts s) (fund1 s) (fund2 s))
   end.
 
 (** * Observations: result class and a snapshot of everything the properties talk about *)
